@@ -19,8 +19,8 @@ RULE = (
     "with named groups, 1-3 target paths (existing with arbitrary bytes / missing / in sub-directories / "
     "without extension; matching 0, 1 or several patterns), a user variable map and the force flag, and "
     "one of three routes: init_from_template API (all targets in one process), `zorg template init` "
-    "(one process per target) or `zorg edit` with the editor stubbed (files inspected at the moment the "
-    "editor starts).  Oracle: existing and not forced => bytes unchanged; missing and first matching "
+    "(one process per target), `zorg edit` with the editor stubbed (files inspected at the moment the "
+    "editor starts) or `zorg action open` on a line linking to the target.  Oracle: existing and not forced => bytes unchanged; missing and first matching "
     "pattern (own loop) => content equals both ZorgTemplateManager.render of that template with user "
     "vars overridden by captures and an own mini-renderer; no match => nothing written, no directory "
     "created; no other file appears or changes; doing it twice equals once.  Non-trivial = a target "
@@ -50,7 +50,7 @@ TARGETS = [
     "log_20240301.zo", "misc.txt", "a/b_c.zo", "19991231.zo", "work/20240102.zo",
 ]
 TEMPLATE_PATHS = ["t1.zot", "t2.zot", "tmpl/day.zot", "work/day.zot", "home/day.zot", "tmpl/t1.zot"]
-_VARS = ["name", "kind", "dir", "y", "md", "u1", "u2"]
+_VARS = ["name", "kind", "dir", "y", "md", "u1", "u2", "parent"]
 _DATE_FMTS = ["%Y-%m-%d", "%Y/%Y%m%d", "%d", "%Y%m%d", "%m.%y"]
 _LITERALS = ["o todo item", "- a note #tag", "plain text line", "", "  * bullet", "## ", "x P1 done", "line with # hash"]
 
@@ -186,7 +186,7 @@ def _case(draw):
     user_vars = {}
     for k in draw(st.lists(st.sampled_from(["u1", "u2", "name", "kind", "y"]), max_size=3, unique=True)):
         user_vars[k] = draw(st.sampled_from(["alpha", "Beta_2", "20240315", "x-y", "7"]))
-    route = draw(st.sampled_from(["api", "api", "cli-init", "cli-edit"]))
+    route = draw(st.sampled_from(["api", "api", "cli-init", "cli-edit", "cli-open"]))
     explicit = None
     # (`zorg template init -t X` always dies in argument validation -- nargs=1 yields a list --
     # before any template code runs, so the explicit template is exercised through the API only)
@@ -196,8 +196,8 @@ def _case(draw):
             explicit = draw(st.sampled_from(cands))
     return {
         "templates": templates, "pattern_map": pattern_map, "targets": targets,
-        "user_vars": user_vars if route != "cli-edit" else {},
-        "force": draw(st.integers(0, 3)) == 0 and route != "cli-edit",
+        "user_vars": user_vars if route in ("api", "cli-init") else {},
+        "force": draw(st.integers(0, 3)) == 0 and route in ("api", "cli-init"),
         "route": route, "explicit": explicit,
         "extra_files": {"other.zo": "# other\n\n- keep me\n"} if draw(st.booleans()) else {},
     }
@@ -219,6 +219,9 @@ def check(case, rec: Rec) -> None:
         zdir.mkdir()
         files0 = {tp: template_text(t) for tp, t in tmpl_objs.items()}
         files0.update(case["extra_files"])
+        if case["route"] == "cli-open":
+            # `action open` on a [[link]] to a missing page initialises it with {"parent": <linking page>}
+            files0["links.zo"] = "# Links\n\n" + "".join(f"- see [[{tg['path']}]]\n" for tg in case["targets"])
         for tg in case["targets"]:
             if tg["existing"] is not None:
                 files0[_norm_target(tg["path"])] = tg["existing"].encode("latin-1")
@@ -242,6 +245,8 @@ def check(case, rec: Rec) -> None:
                 plan.append((rel, "keep", None))
                 continue
             chosen, vars_ = None, dict(case["user_vars"])
+            if case["route"] == "cli-open":
+                vars_["parent"] = "links"
             if matches:
                 p, chosen = matches[0]
                 vars_.update(re.compile(p).match(rel).groupdict())
@@ -342,6 +347,14 @@ def _run_route(case, rec, zdir: Path, box: Path) -> dict:
             if r.code != 0:
                 raise Violation("cli-exit", f"zorg {' '.join(args)} exited {r.code}: {r.out[-300:]}")
         return _tree_bytes(zdir)
+    if route == "cli-open":
+        for i, tg in enumerate(case["targets"]):
+            with rec.sut("action-open"):
+                r = env.zorg(zdir, "action", "open", "links.zo", str(3 + i), config=cfg)
+            rel = _norm_target(tg["path"])
+            if r.code != 0 or not r.out.startswith(f"EDIT {zdir}/{rel}"):
+                raise Violation("cli-open-output", f"action open on [[{tg['path']}]]: exit {r.code}, stdout {r.out!r}")
+        return _tree_bytes(zdir)
     # cli-edit: look at the tree at the moment the editor is started
     import zorg.service.handlers as handlers
 
@@ -370,5 +383,5 @@ def _run_route(case, rec, zdir: Path, box: Path) -> dict:
 
 def parts(tier):
     return [HypPart(name="init", check=check, strategy=_case,
-                    examples=130 if tier == "quick" else 4000,
+                    examples=400 if tier == "quick" else 6000,
                     seconds=45 if tier == "quick" else 600)]
